@@ -13,14 +13,30 @@ def isSystemTable (i : Ident) : Bool := systemTables.any i.equal
 
 inductive Kind where | none | select | use deriving Repr, DecidableEq
 
+/-- a selector of a handled SELECT (`Selector` implementations of parser.go) -/
+inductive Sel where
+  | star
+  | id (name : List Nat)             -- `l.identifierStr()`: the identifier text as written (with quotes if quoted)
+  | count (arg : List Nat)           -- "*" or the identifier text
+  | now
+  | alias (s : Sel) (name : List Nat)
+  deriving Repr, DecidableEq
+
 structure Handled where
   handled : Bool
   err : Bool := false
   kind : Kind := .none
   table : Ident := {}
   nsel : Nat := 0
+  sels : List Sel := []
   oof : Bool := false
   deriving Repr
+
+/-- `Identifier.ID()` -/
+def identID (i : Ident) : List Nat := if i.ignoreCase then i.text.map lowerB else i.text
+
+/-- `l.identifierStr()` reconstructed from the parsed identifier -/
+def identStr (i : Ident) : List Nat := if i.ignoreCase then i.text else [34] ++ i.text ++ [34]
 
 /-- `untilToken(l, tkFrom)` -/
 def untilFrom (L : Lexer) : Nat → LS → Nat × LS
@@ -30,56 +46,63 @@ def untilFrom (L : Lexer) : Nat → LS → Nat × LS
     if t = tkFrom ∨ t = tkEOF then (t, s) else untilFrom L fuel s
 
 /-- arguments of a selector function call: (number of args, closing token ok, error) -/
-def selectorArgs (L : Lexer) : Nat → LS → Nat → Nat → Nat × Nat × Bool × LS
-  | 0, s, t, n => (n, t, true, s)
-  | fuel+1, s, t, n =>
+def selectorArgs (L : Lexer) : Nat → LS → Nat → List (List Nat) → List (List Nat) × Nat × Bool × LS
+  | 0, s, t, acc => (acc, t, true, s)
+  | fuel+1, s, t, acc =>
     if t ≠ tkRparen ∧ t ≠ tkEOF then
       if t = tkStar ∨ t = tkIdentifier then
+        let arg := if t = tkStar then [42] else identStr s.id
         let (t, s) := nextT L s
         let (t, s) := skipToken L s t tkComma
-        selectorArgs L fuel s t (n + 1)
-      else (n, tkInvalid, true, s)
-    else (n, t, false, s)
+        selectorArgs L fuel s t (acc ++ [arg])
+      else (acc, tkInvalid, true, s)
+    else (acc, t, false, s)
 
-/-- `parseSelector`: (next token, error) -/
-def parseSelector (L : Lexer) (fuel : Nat) (s : LS) (t : Nat) : Nat × Bool × LS :=
-  let asClause (s : LS) : Nat × Bool × LS :=
+/-- `parseSelector`: (selector, next token, error) -/
+def parseSelector (L : Lexer) (fuel : Nat) (s : LS) (t : Nat) : Sel × Nat × Bool × LS :=
+  let asClause (sel : Sel) (s : LS) : Sel × Nat × Bool × LS :=
     let (t, s) := nextT L s
     if isUnreservedKeyword s t "as" then
       let (t, s) := nextT L s
-      if t ≠ tkIdentifier then (tkInvalid, true, s) else let (t, s) := nextT L s; (t, false, s)
-    else (t, false, s)
+      if t ≠ tkIdentifier then (sel, tkInvalid, true, s)
+      else
+        let a := identStr s.id
+        let (t, s) := nextT L s
+        (.alias sel a, t, false, s)
+    else (sel, t, false, s)
   if t = tkIdentifier then
     let name := s.id
     let s := mark s
     let (t, s) := nextT L s
     if t = tkLparen then
       let (t, s) := nextT L s
-      let (n, t, e, s) := selectorArgs L fuel s t 0
-      if e then (tkInvalid, true, s)
-      else if t ≠ tkRparen then (tkInvalid, true, s)
+      let (args, t, e, s) := selectorArgs L fuel s t []
+      if e then (.star, tkInvalid, true, s)
+      else if t ≠ tkRparen then (.star, tkInvalid, true, s)
       else if name.ignoreCase ∧ name.text.map lowerB == "count".toList.map Char.toNat then
-        if n = 0 then (tkInvalid, true, s) else let (t, s) := nextT L s; (t, false, s)
+        match args with
+        | [] => (.star, tkInvalid, true, s)
+        | a :: _ => asClause (.count a) s
       else if name.ignoreCase ∧ name.text.map lowerB == "now".toList.map Char.toNat then
-        if n ≠ 0 then (tkInvalid, true, s) else let (t, s) := nextT L s; (t, false, s)
-      else (tkInvalid, true, s)
-    else asClause (rewind s)
-  else if t = tkStar then let (t, s) := nextT L s; (t, false, s)
-  else (tkInvalid, true, s)
+        if !args.isEmpty then (.star, tkInvalid, true, s) else asClause .now s
+      else (.star, tkInvalid, true, s)
+    else asClause (.id (identStr name)) (rewind s)
+  else if t = tkStar then let (t, s) := nextT L s; (.star, t, false, s)
+  else (.star, tkInvalid, true, s)
 
-/-- the selector loop of a handled SELECT: (number of selectors, error) -/
-def selectorsLoop (L : Lexer) : Nat → LS → Nat → Nat → Nat × Bool × Bool
-  | 0, _, _, n => (n, true, true)
-  | fuel+1, s, t, n =>
+/-- the selector loop of a handled SELECT: (selectors, error, out of fuel) -/
+def selectorsLoop (L : Lexer) : Nat → LS → Nat → List Sel → List Sel × Bool × Bool
+  | 0, _, _, acc => (acc, true, true)
+  | fuel+1, s, t, acc =>
     if t ≠ tkFrom ∧ t ≠ tkEOF then
-      if t = tkIdentifier ∧ (isUnreservedKeyword s t "json" ∨ isUnreservedKeyword s t "distinct") then (n, true, false)
+      if t = tkIdentifier ∧ (isUnreservedKeyword s t "json" ∨ isUnreservedKeyword s t "distinct") then (acc, true, false)
       else
-        let (t, e, s) := parseSelector L fuel s t
-        if e then (n, true, false)
+        let (sel, t, e, s) := parseSelector L fuel s t
+        if e then (acc, true, false)
         else
           let (t, s) := skipToken L s t tkComma
-          selectorsLoop L fuel s t (n + 1)
-    else (n, false, false)
+          selectorsLoop L fuel s t (acc ++ [sel])
+    else (acc, false, false)
 
 /-- `isHandledSelectStmt(l, keyspace)` (after the repair: the qualifier, when present, decides) -/
 def handledSelect (L : Lexer) (fuel : Nat) (s : LS) (keyspace : Ident) : Handled :=
@@ -98,9 +121,9 @@ def handledSelect (L : Lexer) (fuel : Nat) (s : LS) (keyspace : Ident) : Handled
         else
           let s := rewind s
           let (t, s) := nextT L s
-          let (n, e, oof) := selectorsLoop L fuel s t 0
+          let (sels, e, oof) := selectorsLoop L fuel s t []
           if e then { handled := true, err := true, kind := .none, oof }
-          else { handled := true, kind := .select, table, nsel := n }
+          else { handled := true, kind := .select, table := { text := identID table, ignoreCase := table.ignoreCase }, nsel := sels.length, sels }
 
 /-- `IsQueryHandled(keyspace, query)` -/
 def isQueryHandled (L : Lexer) (fuel : Nat) (keyspace : Ident) : Handled :=
